@@ -33,7 +33,22 @@ def base():
         import atexit
         atexit.register(lambda: shutil.rmtree(BASE, ignore_errors=True))
     return BASE
-ENV = dict(os.environ, GOFLAGS="-mod=mod", GOPROXY="off", GOSUMDB="off", GOTOOLCHAIN="local")
+# a build cache of its own: every mutant adds hundreds of megabytes of objects that nothing reuses, and the
+# go tool only trims entries that are days old - the cache is wiped whenever it exceeds CACHE_LIMIT_GB
+GOCACHE = "/tmp/ms-gocache"
+CACHE_LIMIT_GB = 25
+ENV = dict(os.environ, GOFLAGS="-mod=mod", GOPROXY="off", GOSUMDB="off", GOTOOLCHAIN="local", GOCACHE=GOCACHE)
+os.environ["GOCACHE"] = GOCACHE  # also for the ./check runs of stage 2
+
+
+def trim_cache():
+    try:
+        out = subprocess.run(["du", "-s", "-B1G", GOCACHE], stdout=subprocess.PIPE, text=True).stdout.split()
+        if out and int(out[0]) > CACHE_LIMIT_GB:
+            subprocess.run(["go", "clean", "-cache"], env=ENV, stdout=subprocess.DEVNULL, stderr=subprocess.DEVNULL)
+            print("build cache wiped (%s GB)" % out[0], flush=True)
+    except Exception as e:
+        print("trim_cache:", e, flush=True)
 SKIP = re.compile(r"(_test\.go$|_string\.go$|^internal/cmd/|^test/|/mocks/|^notations/jschema/internal/mocks)")
 
 # properties for files that no property names as an anchor, by directory (first match wins)
@@ -237,6 +252,7 @@ def stage1(args):
             n += 1
             if n % 50 == 0:
                 print("stage1: %d/%d  %.0fs" % (n, len(todo), time.time() - t0), flush=True)
+                trim_cache()
     report([ "--out", out])
 
 
@@ -315,6 +331,7 @@ def stage2(args):
             n += 1
             if n % 10 == 0:
                 print("stage2: %d/%d  %.0fs" % (n, len(jobs), time.time() - t0), flush=True)
+                trim_cache()
     report(["--out", out])
 
 
